@@ -43,6 +43,13 @@ def draw_costs(ctx, opts):
     """The four step costs: symbolic reals (default), or the 2-parameter slice
     ub=uf, rd=wd, or fixed defaults."""
     mode = opts.get("costs", "sym")
+    if opts.get("cost_choices"):
+        # large-n probes: a few concrete cost vectors (exact rationals given as strings)
+        from fractions import Fraction
+        from .symx import ExactQ
+        vec = ctx.choice("cost_i", [tuple(v) for v in opts["cost_choices"]])
+        uf, ub, wd, rd = (ExactQ(Fraction(x)) for x in vec)
+        return uf, ub, wd, rd
     if mode == "sym":
         uf = ctx.real("uf", 0, strict=True)
         ub = ctx.real("ub", 0, strict=True)
@@ -67,8 +74,8 @@ def draw_params(ctx, cls, n, opts):
             P["uf"], P["ub"], P["wd"], P["rd"] = 1, 1, 2, 2
         return P
     if cls == "Multistage":
-        P["ram"] = ctx.int("ram", 0, None)
-        P["disk"] = ctx.int("disk", 0, None)
+        P["ram"] = ctx.int("ram", 0, opts.get("ram_max"))
+        P["disk"] = ctx.int("disk", 0, opts.get("disk_max"))
         if n > 1:
             ctx.assume(P["ram"] + P["disk"] >= 1)
         P["trajectory"] = ctx.choice("trajectory", ["maximum", "revolve"])
@@ -76,12 +83,15 @@ def draw_params(ctx, cls, n, opts):
         P["s"] = ctx.int("s", min(1, n - 1), opts.get("smax"))
         P["storage"] = ctx.choice("storage", [RAM, DISK])
     elif cls == "TwoLevel":
-        P["period"] = ctx.int("period", 1, opts.get("pmax", n + 1), eager=True)
+        if opts.get("periods"):
+            P["period"] = ctx.choice("period_i", list(opts["periods"]))
+        else:
+            P["period"] = ctx.int("period", 1, opts.get("pmax", n + 1), eager=True)
         P["b"] = ctx.int("b", 0, opts.get("bmax", 3), eager=True)
         P["storage"] = ctx.choice("storage", [RAM, DISK])
         P["trajectory"] = ctx.choice("trajectory", ["maximum", "revolve"])
     elif cls in REVOLVE_FAMILY:
-        P["ram"] = ctx.int("ram", 1, opts.get("rmax", 2), eager=True)
+        P["ram"] = ctx.int("ram", opts.get("rmin", 1), opts.get("rmax", 2), eager=True)
         if cls == "HRevolve":
             P["disk"] = ctx.int("disk", opts.get("dmin", 0), opts.get("dmax", 2), eager=True)
         P["uf"], P["ub"], P["wd"], P["rd"] = draw_costs(ctx, opts)
